@@ -123,7 +123,7 @@ def targeted_cases():
     for noc in ((), (0,), (0, 1)):
         out.append(dict(D, hist=base_hist(2, noc=noc) + [("C",)], test=("H", 2), tag="hello/%d" % len(noc)))
     out.append(dict(D, hist=base_hist(2), test=("H", 1), tag="hello/again"))
-    # max_connections_per_user: one below the limit (the per-uid count of a failed Hello matters, F14.4), at the limit, above
+    # max_connections_per_user: one below the limit (a slot leaked by a failed Hello would show: former F14.4), at the limit, above
     for mc in (2, 3, 4):
         out.append(dict(limits=(512, 512, 128, mc), probes=[], hist=base_hist(2) + [("C",)], test=("H", 2), tag="hello/maxconns%d" % mc))
     out.append(dict(D, hist=base_hist(2) + [("C",)], test=("R", 2, A, 0), tag="req/unregistered"))
@@ -315,13 +315,8 @@ def classify_known(case, base, succ, o, why):
 
 
 def load_known():
-    known = {e["id"]: e for e in vlib.load_known("C14")}
-    p = os.path.join(vlib.VERIF, "notes", "C14.findings.json")
-    if os.path.exists(p):
-        for e in json.load(open(p)):
-            if e.get("property") == "C14" and e.get("status") == "known":
-                known.setdefault(e["id"], e)
-    return known
+    """recorded findings: known-findings.json only (notes/C14.findings.json is documentation)"""
+    return {e["id"]: e for e in vlib.load_known("C14")}
 
 
 def impl_sequence(res, succ):
@@ -484,7 +479,8 @@ def run(ctx):
                               dict(replay, impl=ir[:3000], model=mr[:3000], k_count=n))
     # the refutation witnesses of Props/C14.v (corpus/C14/f<id>_*.json) must still show their finding on the real code
     # (corpus/C14/f14_1_*.json are the former witnesses of F14.1, fixed: plain regression inputs now)
-    want = {"f10a": "F10a", "f10b": "F10b", "f10c": "F10c", "f14_4": "F14.4"}
+    # (f14_4_* likewise since c7c9e6b)
+    want = {"f10a": "F10a", "f10b": "F10b", "f10c": "F10c"}
     for case, mode in jobs:
         t = case.get("tag", "")
         if mode == "fresh" and t.startswith("corpus/f"):
